@@ -408,3 +408,25 @@ Definition to_conformers_dict (nums : list Z) (xy : list (Z * Z)) (confs : list 
   | Err e => Err e
   | Ok cs => Ok ((false, map (fun p => (fst p, snd p, czero)) xy) :: cs)
   end.
+
+(* ------------------------------------------------------------------------------------------------ *)
+(* from_rdkit_molecule after the label loops:
+     mol.fix_structure(recalculate_hydrogens=False)            -- touches no label
+     if tetrahedron_stereo or cis_trans_stereo: mol.fix_stereo()
+   tetrahedron_stereo / cis_trans_stereo are non-empty iff some atom carries a CW/CCW tag / some bond an E/Z label.
+   fix_stereo itself is NOT modelled: it is the parameter [fix] (atom labels, bond labels) -> (atom labels, bond labels). *)
+Definition stereo_labels := (list (Z * option bool) * list (Z * Z * option bool))%type.
+Definition has_tag (tags : list string) : bool :=
+  existsb (fun t => match sign_of_tag t with Some _ => true | None => false end) tags.
+Definition has_bond_label (rbonds : list (Z * Z * string * Z * Z)) : bool :=
+  existsb (fun b => let '(_, _, label, _, _) := b in match sign_of_bs label with Some _ => true | None => false end) rbonds.
+Definition from_stereo_final (fixs : stereo_labels -> stereo_labels) (isH : Z -> bool) (th : list (Z * list Z))
+           (ct : list (Z * Z * (Z * Z * option Z * option Z))) (nb : Z -> list Z) (tags : list string)
+           (rbonds : list (Z * Z * string * Z * Z)) : pyres stereo_labels :=
+  match from_tags isH th nb 0 tags with
+  | Err e => Err e
+  | Ok la => match from_bond_labels isH ct rbonds with
+             | Err e => Err e
+             | Ok lb => Ok (if has_tag tags || has_bond_label rbonds then fixs (la, lb) else (la, lb))
+             end
+  end.
